@@ -309,6 +309,51 @@ MUTANTS = [
     m('C07-complete-without-capacity', 'C07', ['R5'], E + 'tasks.py',
       "        return count == len(execs) and full_capacity",
       "        return count == len(execs)"),
+    m('C07-complete-when-not-done', 'C07', ['R8'], E + 'tasks.py',
+      "            if self.is_with_items_completed():\n"
+      "                state = self._get_final_state()",
+      "            if not self.is_with_items_completed():\n"
+      "                state = self._get_final_state()"),
+    m('C07-final-state-negated', 'C07', ['R5'], E + 'tasks.py',
+      "        elif list(filter(find_error, self.task_ex.executions)):\n"
+      "            return states.ERROR",
+      "        elif not list(filter(find_error, self.task_ex.executions)):\n"
+      "            return states.ERROR"),
+    m('C07-early-complete-any-error', 'C07', ['R5'], E + 'tasks.py',
+      "        find_cancelled = lambda x: x.accepted and x.state == "
+      "states.CANCELLED\n\n"
+      "        if list(filter(find_cancelled, self.task_ex.executions)):\n"
+      "            return True",
+      "        find_cancelled = lambda x: x.accepted and x.state == "
+      "states.ERROR\n\n"
+      "        if list(filter(find_cancelled, self.task_ex.executions)):\n"
+      "            return True"),
+    m('C07-capacity-not-written-back', 'C07', ['R3'], E + 'tasks.py',
+      "            ctx[self._CAPACITY] += 1\n\n"
+      "            self.task_ex.runtime_context.update({self._WITH_ITEMS: "
+      "ctx})",
+      "            ctx[self._CAPACITY] += 1"),
+    m('C07-schedule-without-limit', 'C07', ['R8'], E + 'tasks.py',
+      "            if self._has_more_iterations() and "
+      "self._get_concurrency():",
+      "            if self._has_more_iterations():"),
+    m('C07-context-not-prepared', 'C07', ['R8'], E + 'tasks.py',
+      "        if self._is_new():\n"
+      "            action_count = len(next(iter(with_items_values.values())))",
+      "        if not self._is_new():\n"
+      "            action_count = len(next(iter(with_items_values.values())))"),
+    m('C07-start-index-with-candidates', 'C07', ['R8'], E + 'tasks.py',
+      "        if candidates:\n            indices = copy.copy(candidates)",
+      "        if not candidates:\n            indices = "
+      "copy.copy(candidates)"),
+    m('C07-single-item-unwrapped', 'C07', ['R8'], W + 'data_flow.py',
+      "    if spec_parser.get_task_spec(task_ex.spec).get_with_items():\n"
+      "        return results\n",
+      "    if not spec_parser.get_task_spec(task_ex.spec).get_with_items():"
+      "\n        return results\n"),
+    m('C07-input-index-lost', 'C07', ['R8'], E + 'tasks.py',
+      "            result.append((i, self._get_action_input(ctx)))",
+      "            result.append((0, self._get_action_input(ctx)))"),
     # ---------------------------------------------------------------- C08
     m('C08-retry-off-by-one', 'C08', ['R1'], E + 'policies.py',
       "        retries_remain = retry_no < self.count",
@@ -832,6 +877,21 @@ REFACTORS = [
     r('C08-ref-retry-flip', 'C08', E + 'policies.py',
       "        retries_remain = retry_no < self.count",
       "        retries_remain = self.count > retry_no"),
+    r('C07-ref-done-test-inverted', 'C07', E + 'tasks.py',
+      "            if self._has_more_iterations() and "
+      "self._get_concurrency():\n                self._schedule_actions()",
+      "            if not (self._has_more_iterations() and "
+      "self._get_concurrency()):\n                return\n\n"
+      "            self._schedule_actions()"),
+    r('C07-ref-final-state-early-returns', 'C07', E + 'tasks.py',
+      "        elif list(filter(find_error, self.task_ex.executions)):\n"
+      "            return states.ERROR\n        else:\n"
+      "            return states.SUCCESS",
+      "        if not list(filter(find_error, self.task_ex.executions)):\n"
+      "            return states.SUCCESS\n\n        return states.ERROR"),
+    r('C07-ref-capacity-guard-flipped', 'C07', E + 'tasks.py',
+      "        if concurrency and ctx[self._CAPACITY] < concurrency:",
+      "        if concurrency and concurrency > ctx[self._CAPACITY]:"),
     r('C07-ref-lock-name-format', 'C07', E + 'tasks.py',
       "        with db_api.named_lock('with-items-%s' % self.task_ex.id):",
       "        with db_api.named_lock('with-items-{}'.format("
